@@ -274,7 +274,8 @@ def main(argv=None):
                                           "violations": [], "skipped_budget": 0, "shards": 0, "info": Counter()})
             if r.get("harness_error"):
                 he = r['harness_error']
-                harness_errors.append(f"arm {arm.name} shard {k}: {he[:600]} ... {he[-900:]}")
+                exc_line = he.split("EXCEPTION: ", 1)[1] if "EXCEPTION: " in he else ""
+                harness_errors.append(f"arm {arm.name} shard {k}: {he[:600]} ... {he[-900:]} {exc_line}")
                 continue
             a["shards"] += 1
             a["evaluations"] += r["evaluations"]
